@@ -53,7 +53,9 @@ func (c *Ctx) ParFor(n int, f func(i int)) {
 					return
 				}
 				c.mu.Lock()
-				stop := len(c.vioSeen) >= c.MaxVio
+				// (enough distinct kinds of violation, or a storm of one kind: the verdict stands,
+				// the remaining cases would only make a broken tree cost more time)
+				stop := len(c.vioSeen) >= c.MaxVio || c.violations >= 2000
 				c.mu.Unlock()
 				if stop {
 					return
